@@ -13,6 +13,12 @@ for d in sorted(glob.glob(os.path.join(HERE, "seeded", "*"))):
     checks = m.get("checks", {})
     ran = ", ".join("%s:%s" % (c, "CAUGHT(%d)" % r["violations"] if r["exit"] == 1 and r["violations"] else ("exit %d" % r["exit"]))
                     for c, r in sorted(checks.items()))
+    prev = m.get("previous_runs") or []
+    first_missed = [p for p in prev if not (p.get("caught_by") or [])]
+    if first_missed:
+        ran += " (first run: not caught - check strengthened, see 9.2/9.3)"
+    elif prev:
+        ran += " (re-run after a disturbed first run)"
     rows.append((os.path.basename(d), m["property"], "yes" if m.get("confirmed") else "NO", ", ".join(m.get("caught_by", [])) or "-", ran,
                  m.get("needs_to_manifest", "")[:230]))
 print("| seeded change | breaks | confirmed (suite passes, demo fails with / passes without) | caught by | quick checks run against it | what it needs to manifest |")
